@@ -136,13 +136,19 @@ let parse_svc (s : string) : svc =
   match List.map parse_orec (split_on '+' s) with
   | p :: sr :: tx :: addrs -> { sv_ptr = p; sv_srv = sr; sv_txt = tx; sv_addrs = addrs }
   | _ -> failwith "svc"
-let parse_resp (t : string list) =
-  match t with
-  | [ svcs; qs; kas ] ->
-    let svcs = if svcs = "-" then [] else List.map parse_svc (split_on '|' svcs) in
+let parse_query (x : string) =
+  match split_on '=' x with
+  | [ qs; kas ] ->
     let qs = List.map (fun x -> match split_on ',' x with [ n; ty ] -> (bytes_of_hex n, n_of_dec ty) | _ -> failwith "q") (split_on '+' qs) in
     let kas = if kas = "-" then [] else List.map (fun x -> let o = parse_orec x in (o.o_id, o.o_ttl)) (split_on '+' kas) in
-    (svcs, qs, kas)
+    (qs, kas)
+  | _ -> failwith "query"
+(* resp <svc|svc..> <questions=kas#questions=kas#...> *)
+let parse_resp (t : string list) =
+  match t with
+  | [ svcs; queries ] ->
+    let svcs = if svcs = "-" then [] else List.map parse_svc (split_on '|' svcs) in
+    (svcs, List.map parse_query (split_on '#' queries))
   | _ -> failwith "resp"
 let fmt_orec (o : orec) = string_of_ident_ttl o.o_id o.o_ttl
 let fmt_resp = function
@@ -196,8 +202,8 @@ let run_case (line : string) : string =
      | Ok obs -> fmt_run pairs steps obs
      | Err -> "ERR" | Panic -> "PANIC" | OutOfFuel -> "HANG")
   | "resp" :: rest ->
-    let svcs, qs, kas = parse_resp rest in
-    fmt_resp (resp_predict svcs qs kas)
+    let svcs, queries = parse_resp rest in
+    String.concat " # " (List.map (fun (qs, kas) -> fmt_resp (resp_predict svcs qs kas)) queries)
   | _ -> "BADCASE"
 
 (* ---- monitors ---- *)
@@ -237,7 +243,15 @@ let mon_sim (which : string) (case : string list) (result : string) : string =
       if which = "C11" then ((fun _ -> true), strip_ka)
       else ((fun t -> starts_with t "Q["), (fun t -> t)) in
     let a = view keep tr result and b = view keep tr spec in
-    if a = b then "PASS" else "FAIL " ^ first_diff a b
+    if a = b then "PASS"
+    else
+      let tag =
+        if which = "C10" then
+          (match spec_run_created_ka cfg steps with
+           | Ok obs2 -> if view keep tr (fmt_run pairs steps obs2) = a then "[ka-shortened-record]" else "[unexplained]"
+           | _ -> "[unexplained]")
+        else "" in
+      "FAIL" ^ tag ^ " " ^ first_diff a b
   | _ -> "BAD spec did not evaluate"
 
 let mon_c11 (case : string list) (result : string) : string =
@@ -279,9 +293,26 @@ let mon_c10 (case : string list) (result : string) : string =
      | _ -> "FAIL unexpected result " ^ result)
   | "simc" :: rest -> mon_sim "C10" rest result
   | "resp" :: rest ->
-    let svcs, qs, kas = parse_resp rest in
-    if chk_C10_resp svcs qs kas (parse_obs_resp result) then "PASS"
-    else "FAIL response differs from: every unsuppressed answer with its additionals, nothing else; prescribed " ^ fmt_resp (resp_spec svcs qs kas)
+    let svcs, queries = parse_resp rest in
+    let obs = split_str " # " result in
+    if List.length obs <> List.length queries then "BAD result length"
+    else begin
+      let verdicts = List.map2 (fun (qs, kas) o ->
+          let o = parse_obs_resp o in
+          if chk_C10_resp svcs qs kas o then "" else
+          let tag =
+            if resp_explained_by true false svcs qs kas o then "[ka-flush-bit]"
+            else if resp_explained_by false true svcs qs kas o then "[srv-additionals-kept]"
+            else if resp_explained_by true true svcs qs kas o then "[ka-flush-bit+srv-additionals-kept]"
+            else "[unexplained]" in
+          tag ^ " prescribed " ^ fmt_resp (resp_spec svcs qs kas) ^ " observed " ^ fmt_resp o) queries obs in
+      let bad = List.filter (fun v -> v <> "") verdicts in
+      if bad = [] then "PASS"
+      else
+        let tags = List.sort_uniq compare (List.map (fun v -> List.hd (split_on ' ' v)) bad) in
+        let msg = "FAIL" ^ String.concat "" tags ^ " response differs from: every unsuppressed answer with its additionals, nothing else;" ^ List.hd bad in
+        if String.length msg > 600 then String.sub msg 0 600 else msg
+    end
   | _ -> "BADCASE"
 
 let run_monitor (id : string) (case : string list) (result : string) : string =
